@@ -28,7 +28,13 @@ type BlockHeaderSubscriber interface {
 
 type liquidBlockHeaderSubscriber struct {
 	txObservers []TXObserver
-	mu          sync.Mutex
+	// mu guards txObservers. It is never held while an observer's callback
+	// runs: callbacks re-enter the swap state machine, which in turn registers
+	// observers here while holding the swap's lock.
+	mu sync.Mutex
+	// updateMu serialises Update so that every observer is called back by one
+	// update at a time.
+	updateMu sync.Mutex
 }
 
 func NewLiquidBlockHeaderSubscriber() *liquidBlockHeaderSubscriber {
@@ -44,6 +50,8 @@ func (h *liquidBlockHeaderSubscriber) Register(tx TXObserver) {
 }
 
 func (h *liquidBlockHeaderSubscriber) Deregister(o TXObserver) {
+	h.mu.Lock()
+	defer h.mu.Unlock()
 	newObservers := make([]TXObserver, 0, len(h.txObservers))
 	for _, observer := range h.txObservers {
 		if observer.GetSwapID() != o.GetSwapID() {
@@ -54,9 +62,15 @@ func (h *liquidBlockHeaderSubscriber) Deregister(o TXObserver) {
 }
 
 func (h *liquidBlockHeaderSubscriber) Update(ctx context.Context, blockHeight BlockHeight) error {
+	h.updateMu.Lock()
+	defer h.updateMu.Unlock()
+
 	h.mu.Lock()
-	defer h.mu.Unlock()
-	for _, observer := range h.txObservers {
+	observers := make([]TXObserver, len(h.txObservers))
+	copy(observers, h.txObservers)
+	h.mu.Unlock()
+
+	for _, observer := range observers {
 		callbacked, err := observer.Callback(ctx, blockHeight)
 		if callbacked {
 			if err == nil || errors.Is(err, swap.ErrSwapDoesNotExist) {
